@@ -27,7 +27,12 @@ try:
     demo_src = open(os.path.join(src, "demo.py")).read()
     # demos were written against the agent's own worktree path; retarget to this worktree
     demo_src = re.sub(r"/tmp/wt/C\d+", wt, demo_src)
-    demo = os.path.join(wt, "_demo.py")
+    sd = os.path.join(wt, "_out", str(k))
+    os.makedirs(sd, exist_ok=True)
+    for fn in os.listdir(src):          # helper modules the demo imports (harness.py ...)
+        if fn.endswith(".py") and fn != "demo.py":
+            open(os.path.join(sd, fn), "w").write(re.sub(r"/tmp/wt/C\d+", wt, open(os.path.join(src, fn)).read()))
+    demo = os.path.join(sd, "demo.py")
     open(demo, "w").write(demo_src)
     env = dict(os.environ, PYTHONPATH=os.path.join(wt, "src"))
 
@@ -66,7 +71,9 @@ try:
     dst = f"/verif/seeded/{sid}"
     os.makedirs(dst, exist_ok=True)
     open(os.path.join(dst, "patch.diff"), "w").write(newpatch)
-    open(os.path.join(dst, "demo.py"), "w").write(open(os.path.join(src, "demo.py")).read())
+    for fn in os.listdir(src):
+        if fn.endswith(".py"):
+            open(os.path.join(dst, fn), "w").write(open(os.path.join(src, fn)).read())
     notes = open(os.path.join(src, "notes.md")).read() if os.path.exists(os.path.join(src, "notes.md")) else ""
     open(os.path.join(dst, "notes.md"), "w").write(notes)
     meta = {"id": sid, "breaks_property": prop, "confirmed_at_repo_head": head,
